@@ -136,7 +136,7 @@ class NumberExpr(number_expr.NumberExpr, internal.RWValue[decimal.Decimal]):
         ...
     @_operand_type_check
     def __add__(self, other: 'NumberExpr') -> 'NumberExpr':
-        return copy.deepcopy(self).__iadd__(other)
+        return copy.deepcopy(self).__iadd__(copy.deepcopy(other))
 
     @overload
     def __radd__(self, other: _AnyNumber) -> 'NumberExpr':  # type: ignore[misc]
@@ -166,7 +166,7 @@ class NumberExpr(number_expr.NumberExpr, internal.RWValue[decimal.Decimal]):
         ...
     @_operand_type_check
     def __sub__(self, other: 'NumberExpr') -> 'NumberExpr':
-        return copy.deepcopy(self).__isub__(other)
+        return copy.deepcopy(self).__isub__(copy.deepcopy(other))
 
     @overload
     def __rsub__(self, other: _AnyNumber) -> 'NumberExpr':  # type: ignore[misc]
@@ -215,7 +215,7 @@ class NumberExpr(number_expr.NumberExpr, internal.RWValue[decimal.Decimal]):
         ...
     @_operand_type_check
     def __mul__(self, other: 'NumberExpr') -> 'NumberExpr':
-        return copy.deepcopy(self).__imul__(other)
+        return copy.deepcopy(self).__imul__(copy.deepcopy(other))
 
     @overload
     def __rmul__(self, other: _AnyNumber) -> 'NumberExpr':  # type: ignore[misc]
@@ -245,7 +245,7 @@ class NumberExpr(number_expr.NumberExpr, internal.RWValue[decimal.Decimal]):
         ...
     @_operand_type_check
     def __truediv__(self, other: 'NumberExpr') -> 'NumberExpr':
-        return copy.deepcopy(self).__itruediv__(other)
+        return copy.deepcopy(self).__itruediv__(copy.deepcopy(other))
 
     @overload
     def __rtruediv__(self, other: _AnyNumber) -> 'NumberExpr':  # type: ignore[misc]
